@@ -90,6 +90,7 @@ func registerAll() {
 	reg("L22", "limit agreement between writer and reader: no decoder rejects an element / extra-data count that the encoders can write (two-byte count heads; extra-data indexes 0..maxInlinedExtraDataIndex), and each encoder refuses an extra-data index exactly when it exceeds maxInlinedExtraDataIndex", ruleL22)
 	reg("L20", "type-info references are resolved for every kind of inlined extra data: wherever the reference-resolving decoder is built, every callee handed a TypeInfoDecoder receives it (not the plain decoder)", ruleL20)
 	reg("S10", "every collected key is applied: in each commit entry point the collected owned keys (collector result, or the exact front/back regions of a local collector array - any other slice view of it is reported) are, on every success path, walked by a register-writing loop or helper, or fed to workers whose results are applied by a receive-and-write loop; paths on which the collection is known empty are exempt", ruleS10)
+	reg("X9", "a copy carries every field: every field of every in-package struct a copy function builds is assigned in that function (fields whose zero value is what a copy must have are listed with the reason)", ruleX9)
 	reg("G7", "shared global objects: every package-level variable that holds a reference is a sync.Pool, a function that captures nothing, a pointer to an in-package struct whose methods never write the receiver, or a slice/map that is only read; no method of another package's object is called through a global", ruleG7)
 	reg("G6", "arrival-independent outcome: no return inside a launcher's receive loop depends on the content of an individual worker result (which error is returned and what was applied before it must not depend on which worker finished first)", ruleG6)
 	reg("N5", "an outdated parent-updater never reads the former parent's slabs: the closure reaches slab storage only on the edge where an in-memory registry of the parent (keyed by the child's value id) still lists the child", ruleN5)
@@ -211,7 +212,7 @@ func registerAll() {
 	}
 	propTable["C17"] = &PropSpec{
 		ID:          "C17",
-		Rules:       []string{"X5", "X6", "R1", "R2", "L14", "L17"},
+		Rules:       []string{"X5", "X6", "R1", "R2", "L14", "L17", "X9", "R3"},
 		Explanation: "for every type with a can-copy/copy pair the predicate is constant false exactly when the operation fails on every path, and non-constant predicates refuse on exactly the receiver state the operation fails on (the rest is delegated to the elements' own pair); every slice/map/pointer field of a copy receives a fresh or cloned value, never one loaded from the source. The batch builders build the next tree level only from at least two slabs (tested on the slice after the tail merge) and merge / rebalance the underfull last slab of a level on the correct decision edges.",
 		NotDecided:  "equality of content, validity 'as if built by individual operations' (tail-rebalance arithmetic), byte-array conversions.",
 		Technique:   "return-constant and control-dependence comparison of sibling methods; alias check on stores into the fresh result",
